@@ -87,7 +87,17 @@ fn call(st: &mut State, entry: &str, input: &[u8], cmd: &Value) -> &'static str 
                     if pf != "missing" {
                         std::fs::write(&f, input).unwrap();
                     }
-                    some_or_fail(physis::sqpack::SqPackIndex::from_existing(f.to_str().unwrap()))
+                    match physis::sqpack::SqPackIndex::from_existing(f.to_str().unwrap()) {
+                        Some(ix) => {
+                            // and the lookups a handle makes on it: two stored paths, an absent one
+                            for p in ["exd/root.exl", "exd/a.exh", "exd/none.exh", "bg/x/y.lgb"] {
+                                let _ = ix.exists(p);
+                                let _ = ix.find_entry(p);
+                            }
+                            "value"
+                        }
+                        None => "fail",
+                    }
                 }
                 ("dat.read", pf) => {
                     let mut f = base.clone();
